@@ -390,7 +390,7 @@ func TestC28(t *testing.T) {
 	allBelow := ev.Pick(300, 600)
 
 	t.Run("walk", func(t *testing.T) {
-		ev.Check(t, 300, 500, func(rt *rapid.T) {
+		ev.Check(t, 300, 300, func(rt *rapid.T) {
 			n := c28Len(rt, "n", maxN)
 			salt := rapid.Uint32().Draw(rt, "salt")
 			leaves := make([][]byte, n)
@@ -601,7 +601,7 @@ func TestC28(t *testing.T) {
 			}
 			step := 1
 			if n > 1000 {
-				step = 7
+				step = 17
 			}
 			for l := n; l >= 0; l -= step {
 				// rewind n -> l directly (not step by step), then grow back to n
